@@ -45,6 +45,7 @@ warnings.simplefilter("ignore")
 
 DEVICES = {"evo": EvoWorklist, "fluent": FluentWorklist}
 BIG = 1e13
+HALF_CENT = F(51, 10000)  # records carry two decimals
 
 
 # ------------------------------------------------------------------ independent helpers
@@ -173,12 +174,18 @@ def check_transfer(c):
         if len(got) != k:
             p.append(f"volume {v!r}: {len(got)} aspirate/dispense pairs, expected {k}")
             continue
-        if any(g > F(m) + F(1, 200) or g < 0 for g in got):
+        if any(g > F(m) + HALF_CENT or g < 0 for g in got):
             p.append(f"volume {v!r}: a step of {float(max(got))} exceeds max_volume {m!r}")
-        if abs(sum(got) - F(v)) > F(1, 200) * max(1, k) + F(v) * F(1, 10**9):
+        if abs(sum(got) - F(v)) > HALF_CENT * max(1, k) + F(v) * F(1, 10**9):
             p.append(f"volume {v!r}: emitted steps add up to {float(sum(got))}")
         if abs(F(float(dst.volumes[i, 0])) - F(v)) > F(1, 10**6) * max(1, F(v)):
             p.append(f"volume {v!r}: destination well holds {dst.volumes[i, 0]!r}")
+    extra = sum(max(0, nsteps(v, m) - 1) for v in vols)
+    want_label = f"{extra} LVH steps" if extra else None
+    for lw in (src, dst):
+        if len(lw.history) != 2 or lw.history[-1][0] != want_label:
+            p.append(f"history of {lw.name} has labels {[h[0] for h in lw.history]}, expected ['initial', {want_label!r}] ({extra} extra large-volume steps)")
+            break
     total0 = F(src_need(c)) * (1 if c.get("trough") else 2 * n)
     if abs(F(float(src.volumes.sum())) + F(float(dst.volumes.sum())) - total0) > F(1, 10**6) * total0:
         p.append("liquid not conserved")
@@ -213,7 +220,7 @@ def check_nosplit(c):
     if too_big:
         if not isinstance(exc, InvalidOperationError):
             return [f"{head}: step above max_volume not refused with InvalidOperationError (got {type(exc).__name__ if exc else 'no error'}; records {list(wl)[-3:]})"]
-        big_recs = [r for r in wl if r[0] in "AD" and parse(r)[1]["vol"] > F(m) + F(1, 200)]
+        big_recs = [r for r in wl if r[0] in "AD" and parse(r)[1]["vol"] > F(m) + HALF_CENT]
         if big_recs:
             return [f"{head}: record above max_volume emitted: {big_recs[0]}"]
         return []
@@ -222,7 +229,7 @@ def check_nosplit(c):
     recs = [parse(r)[1] for r in wl if r[0] in "AD"]
     pos = 1 if v > 0 else 0
     want = {"transfer": 2 * pos, "transfer_vec": 2 + 2 * pos, "aspirate": pos, "dispense": pos}.get(op, 1)
-    if len(recs) != want or (recs and (pos or op.endswith("_well")) and recs[-1]["vol_s"] != f"{float(v):.2f}"):
+    if len(recs) != want or (recs and (pos or op.endswith("_well")) and abs(recs[-1]["vol"] - F(v)) > HALF_CENT):
         return [f"{head}: expected {want} A/D records ending with volume {float(v):.2f}: {list(wl)}"]
     return []
 
@@ -420,7 +427,7 @@ def main():
         evaluations += 1
         d = parts.setdefault((c["kind"], source), 0)
         parts[(c["kind"], source)] = d + 1
-        if len(samples) < 5 and evaluations % 97 == 1:
+        if len(samples) < 5 and evaluations % 3001 == 1:
             samples.append(c)
         for q in run_case(c):
             fk = (c["kind"], c.get("device"), c.get("op") or c.get("via"))
